@@ -11,11 +11,11 @@ LEVEL = "exploration"
 RULE = ("a valid trace (model-guided history over all models, accepted by the reference model, lint-clean) "
         "plus exactly one corruption: truncation of a stream.obs at an offset that is not an event boundary "
         "(incl. inside the header), a cut at an event boundary before the thread's final OHe (incomplete stream with finished metadata), swap of two adjacent events with different clocks, alteration of a header "
-        "byte, removal/alteration of a mandatory metadata key (version, ovni.part, tid, pid, loom, finished, "
+        "byte (random, or to a neighbouring version/magic value), removal/alteration of a mandatory metadata key (version, ovni.part, tid, pid, loom, finished, "
         "require, lib.version; app_id / loom_cpus removed from all carriers), unparsable JSON, an incompatible "
-        "required version, an event of a model nobody requires, an unregistered model letter, an unknown code "
+        "required version, an event of a model nobody requires, an unregistered model letter, an unknown code (also one that differs from a handled code only in the top bit of a byte) "
         "of a required model, a wrong payload size for size-checked events (OHx, OAs, OAr, OM*, VT*, 6T*), a "
-        "non-jumbo ?Yc (also right after a jumbo event).  Oracle: ovniemu (ASan build, with and without -l) "
+        "non-jumbo ?Yc (also right after a jumbo event), a jumbo ?Yc too short for its arguments or without terminator, ovni.finished set to another number/type.  Oracle: ovniemu (ASan build, with and without -l) "
         "exits 1, no signal, never prints 'emulation finished ok'.  Non-trivial = base has >= 2 streams or a "
         "non-ovni model; distinct = (base, corruption).")
 ASSUMPTIONS = ["the base trace is judged valid by the reference model (which C04-C08 compare with the emulator)",
